@@ -606,14 +606,30 @@ func genShared(rt *rapid.T, mode string) c17Shared {
 	cfg.MaxDepth, cfg.PPost, cfg.NoCustom = 1, 0, true
 	cfg.PVary, cfg.PAbsent, cfg.PJunk = 0.4, 0.15, 0.05
 	g := model.NewGen(rt, cfg)
-	proto := g.GenNode(rapid.IntRange(0, 1).Draw(rt, "pd"), false)
+	pd := rapid.IntRange(0, 1).Draw(rt, "pd")
+	var proto *model.Node
+	if pd == 1 && rapid.Bool().Draw(rt, "structproto") {
+		saved := cfg.RootKinds
+		g.Cfg.RootKinds = []string{model.KStruct}
+		g.Cfg.MaxFields = 4
+		proto = g.GenNode(1, true)
+		g.Cfg.RootKinds = saved
+	} else {
+		proto = g.GenNode(pd, false)
+	}
 	for proto.Kind == model.KPtr || proto.Kind == model.KCustom {
 		proto = g.GenNode(0, false)
 	}
+	use := 0
 	clone := func() *model.Node {
 		c := model.RoundTrip(*proto)
 		copyWitness(g, proto, &c)
 		markShare(&c, 1)
+		// one schema object may serve destination types that declare the same fields in another order
+		if use > 0 && c.Kind == model.KStruct && len(c.Fields)+len(c.Extra) >= 2 {
+			c.TypeRot = rapid.IntRange(0, len(c.Fields)+len(c.Extra)-1).Draw(rt, "typerot")
+		}
+		use++
 		return &c
 	}
 	root := &model.Node{Kind: model.KStruct}
